@@ -1,0 +1,7 @@
+//go:build !verif
+
+package wire
+
+// verifYield is a no-op unless the library is built with the "verif" build
+// tag (see verif_on.go). It compiles away in shipped builds.
+func verifYield(string) {}
